@@ -113,7 +113,7 @@ def run_translator():
 
 # which regenerated table a property's theorems are stated against
 TABLE_OF = {"C02": ["solver_cast"], "C04": ["tokeniser", "identifier"], "C05": ["tokeniser"], "C07": ["identifier", "solver_aho"], "C15": ["identifier"],
-            "C06": ["solver_loops"], "C17": ["solver_loops"], "C08": ["solver_aho", "solver_loops"], "C09": ["solver_cmp", "parser_num_arms"]}
+            "C06": ["solver_loops"], "C17": ["solver_loops"], "C08": ["solver_aho", "solver_loops"], "C09": ["solver_cmp", "parser_num_arms", "solver_casts"]}
 
 
 def gen_coqproject():
@@ -645,7 +645,7 @@ class Check:
         tb = [
             "Coq 8.16.1 kernel (coqc; vm_compute used in Examples, refutation witnesses and table instantiation; native_compute not used)",
             "axioms reported by Print Assumptions on this run: %s" % (", ".join(sorted(axioms)) or "none (closed under the global context)"),
-            "tools/gen_tables.py (translator: binding powers and keyword table of the tokeniser -> Model/Generated.v; comparison table of the solver -> Model/GeneratedCmp.v, read by Model/CmpTable.v; pattern dispatch chain of into_identifier -> Model/GeneratedIdent.v, read by Model/IdentTable.v; acceptance tables of the automaton loops -> Model/GeneratedAho.v, read by Model/AhoTable.v; and/or-group loops and the Negate arm -> Model/GeneratedLoops.v, read by Model/LoopTable.v; numeric pattern arms of the loader -> Model/GeneratedNumArms.v, read by Model/NumArmTable.v; value-kind dispatch of the string searches -> Model/GeneratedCast.v, read by Model/CastTable.v)",
+            "tools/gen_tables.py (translator: binding powers and keyword table of the tokeniser -> Model/Generated.v; comparison table of the solver -> Model/GeneratedCmp.v, read by Model/CmpTable.v; pattern dispatch chain of into_identifier -> Model/GeneratedIdent.v, read by Model/IdentTable.v; acceptance tables of the automaton loops -> Model/GeneratedAho.v, read by Model/AhoTable.v; and/or-group loops and the Negate arm -> Model/GeneratedLoops.v, read by Model/LoopTable.v; numeric pattern arms of the loader -> Model/GeneratedNumArms.v, read by Model/NumArmTable.v; value-kind dispatch of the string searches -> Model/GeneratedCast.v, read by Model/CastTable.v; the two copies of the int() / flt() operand casts compared with each other and with the recognised arms, range guard -> Model/GeneratedCasts.v)",
             "extraction: ExtrOcamlBasic only (bool, option, unit, list, prod, sumbool, sumor; andb/orb inlined); OCaml 4.13.1; runner/runner.ml",
             "correspondence check: harness (Rust, links /repo by path), generators and diff (Python), sampled",
             "oracles (not verified, passed as a record): regex validity/matching, f64 parse/print, Unicode alnum/numeric classes",
